@@ -35,6 +35,17 @@ RULE = ("Hypothesis draws the family, the order(s) (0, 1, 2, 3 forced, otherwise
         "Qbfs / Q2d Clenshaw derivatives; the explicit mode sum sum c Q(n,m,u,t) and the closed conic form for the "
         "sag-and-slope evaluators (2D-Q coefficient sets: m=0 vector possibly empty, per azimuthal order both families, "
         "none, or only the cosine / only the sine family, as Q2d_nm_c_to_a_b packs them, optionally preceded by a run of empty orders).  "
+        "Every Clenshaw derivative routine is also compared with the derivative of the VALUE routine it names, by complex step through that routine "
+        "itself (jacobi_sum_clenshaw; clenshaw_qbfs = x(1-x)S(x); the sum formed from clenshaw_q2d), and each row k of the returned array with the "
+        "complex-step derivative of row k-1 of the same routine; the slopes of compute_z_zprime_Qbfs / _Qcon / _Q2d with the complex-step derivative "
+        "of the sag the same call returns.  Jacobi parameters include alpha = -beta != 0 (Chebyshev 3rd / 4th kind weights (-.5,.5), (.5,-.5), "
+        "(.25,-.25), ...), alpha = beta, and pairs displaced from every equality-defined special case by a relative 1e-12 .. 1e-4.  Surface "
+        "parameters include the exactly-special values together: curvature 0 (plane base: 0, 0.0, -0.0) and next to it (1e-9 .. 1e-200), k = 0, "
+        "k = -1, dx = dy = 0 (positionally, by keyword or defaulted), with a normalization radius equal to the aperture, wider than it, or exactly 1; "
+        "Surface objects are built with the drawn parameters or built with others and given the drawn ones through the public params dict "
+        "(Surface.plane too: zero sag and slopes).  The Clenshaw routines are also given a caller-supplied alphas= workspace (fresh, or used before by a "
+        "call of the same shape); orders / derivative orders as np.int64, shape parameters as np.float64; one array object for two coordinates "
+        "(r is t, u is t, x is y); one case in four makes a request that fails (evaluation points None, caught) immediately before the checked call.  "
         "Failure buckets name the routine "
         "and the failing input class (n=0 / n>=1, len1, j>=2, j>=len, k!=0, x.ndim!=1 for the Chebyshev sequence forms, "
         "one-family-empty for 2D-Q, :argument-modified, :result-overwritten, :aliased-state).  Non-trivial = order in {0,1} or "
@@ -59,7 +70,8 @@ HERMITE_MAX = 150                                      # He_n / H_n on [-4, 4] o
 # ---- how the arguments are presented to the code under test ------------------------------------------------------------
 # One sub-dict `v` per case (absent in replays recorded before it existed -> plain float64 / C order / lists / single call).
 INT_TYPES = ['int64', 'int32', 'int16', 'int8']
-DEFAULT_V = {'xkind': 'f64', 'itype': 'int64', 'layout': 'C', 'layout2': 'C', 'pre32': False, 'again': False, 'cs_as': 'list', 'ns_as': 'list'}
+DEFAULT_V = {'xkind': 'f64', 'itype': 'int64', 'layout': 'C', 'layout2': 'C', 'pre32': False, 'again': False, 'cs_as': 'list', 'ns_as': 'list',
+             'n_as': 'int', 'p_as': 'python', 'buf': 'none', 'prefail': False}
 CONTAINERS = ['list', 'list', 'tuple', 'array']
 
 
@@ -72,10 +84,18 @@ def variants(kinds=('f64', 'f32', 'int', 'complex')):
         # coefficients carry units: nanometres (1e-9 of a metre), picometres, or microns of a large part
         'cscale': st.sampled_from([1.0, 1.0, 1.0, 1.0, 1e-9, 1e-12, 1e6]),
         # all evaluation points exactly at 0 (the vertex / the centre of the interval), where parity-structured sums have roots
-        'xzero': st.sampled_from([False, False, False, False, True])})
+        'xzero': st.sampled_from([False, False, False, False, True]),
+        # orders / derivative orders as they come out of np.arange, shape parameters as numpy scalars (single-order evaluators)
+        'n_as': st.sampled_from(['int', 'int', 'int', 'np.int64']), 'p_as': st.sampled_from(['python', 'python', 'python', 'np.float64']),
+        # a caller-supplied alphas= workspace: none, a fresh one, or one that an earlier call of the same shape has already used
+        'buf': st.sampled_from(['none', 'none', 'fresh', 'used']),
+        # a request that fails (evaluation points None) and is caught by the caller immediately before the checked call
+        'prefail': st.sampled_from([False, False, False, True]),
+        # value pattern of the coefficients: independent values, all equal, or alternating +c / -c (sums that cancel exactly at x = 1 / -1)
+        'cpat': st.sampled_from(['random', 'random', 'random', 'random', 'equal', 'alternating'])})
 
 
-_CUR = {'cscale': 1.0, 'xzero': False}     # presentation options of the case being checked (set by var_of, read by the generators below)
+_CUR = {'cscale': 1.0, 'xzero': False, 'cpat': 'random'}     # presentation options of the case being checked (set by var_of, read by the generators below)
 
 
 def var_of(case, kinds=('f64', 'f32', 'int', 'complex')):
@@ -85,6 +105,7 @@ def var_of(case, kinds=('f64', 'f32', 'int', 'complex')):
         v['xkind'] = 'f64'
     _CUR['cscale'] = float(v.get('cscale', 1.0))
     _CUR['xzero'] = bool(v.get('xzero', False))
+    _CUR['cpat'] = v.get('cpat', 'random')
     return v
 
 
@@ -111,6 +132,29 @@ def present(x, shape, v, layout=None, kind=None):
     dt = {'f64': np.float64, 'f32': np.float32, 'int': getattr(np, v['itype']), 'complex': np.complex128}[kind]
     a = np.asarray(x).astype(dt)
     return U.relayout(a, layout or v['layout']) if a.ndim else a
+
+
+def order_as(n, v):
+    """an order (or derivative order) as the caller holds it: a Python int, or the numpy integer an np.arange loop yields"""
+    return np.int64(n) if v.get('n_as', 'int') == 'np.int64' else n
+
+
+def params_as(p, v):
+    """shape parameters as Python numbers, or as numpy float64 scalars (hashable, so the cached recurrence coefficients accept them)"""
+    return [np.float64(q) for q in p] if v.get('p_as', 'python') == 'np.float64' else list(p)
+
+
+def prefail(ctx, v, fn, *args, **kw):
+    """blind-spot class 'after an exception was raised and caught': the same routine is first asked for something it cannot do (the
+    evaluation points are None) and the caller catches the exception; nothing is asserted about that request - the checked call that
+    follows must behave as if it had never happened"""
+    if not v.get('prefail', False):
+        return
+    ctx.label('after-failed-request')
+    try:
+        fn(*args, **kw)
+    except Exception:       # noqa - whatever the library raises for the impossible request; a request that does not fail asserts nothing either
+        pass
 
 
 def as32(x):
@@ -198,18 +242,22 @@ def reuse_check(ctx, v, bucket, first, args, other, redo, verify):
         verify(redo(), bucket + ':aliased-state')
 
 
+WORKSPACES = ('alphas',)       # keyword arguments documented as output / scratch storage of the callee
+
+
 def call(ctx, cls, fn, *a, **k):
     """ctx.call, with the failing input class appended to the bucket of a crash; every array / list / tuple argument must come
     back exactly as it was handed in"""
-    before = snapshot((a, k))
+    kin = {n: e for n, e in k.items() if n not in WORKSPACES}       # a workspace is there to be written to
+    before = snapshot((a, kin))
     try:
         out = ctx.call(fn, *a, **k)
     except Violation as v:
         if v.bucket.startswith('raise:') and cls:
             raise Violation(v.bucket + ':' + cls, v.msg) from v
         raise
-    if not same((a, k), before):
-        bad = [i for i, (x, y) in enumerate(zip(a, before[0])) if not same(x, y)] + [n for n in k if not same(k[n], before[1][n])]
+    if not same((a, kin), before):
+        bad = [i for i, (x, y) in enumerate(zip(a, before[0])) if not same(x, y)] + [n for n in kin if not same(kin[n], before[1][n])]
         raise Violation('%s:argument-modified' % fname(fn), '%s changed its argument(s) %s in place' % (fname(fn), bad))
     return out
 
@@ -228,10 +276,18 @@ _ab_float = U.nice_float(-0.99, 6.0)
 AB_TABLE = [[0, 0], [-0.5, -0.5], [0.5, 0.5], [-0.5, 0.5], [0.5, -0.5], [0, 4], [1, 1], [0, 1], [0, 2], [2, 0]]
 
 
+# alpha = -beta != 0 (the weights of the Chebyshev polynomials of the third / fourth kind and their relatives: B_0 = (alpha - beta)/2 is
+# the only recurrence coefficient that does not carry the factor alpha^2 - beta^2) and alpha = beta (ultraspherical: every B_n = 0)
+AB_MIRROR = [[-0.5, 0.5], [0.5, -0.5], [0.25, -0.25], [-0.25, 0.25], [0.75, -0.75], [-0.9, 0.9], [0.125, -0.125]]
+AB_EQUAL = [[1.5, 1.5], [2, 2], [0.25, 0.25], [-0.25, -0.25], [3.0, 3.0], [-0.9, -0.9], [0.75, 0.75], [1, 1], [5, 5]]
+
+
 def ab_pairs():
     """(alpha, beta): tabulated, general, and the two special lines alpha+beta = 0 and alpha+beta = -1."""
     return st.one_of(
         st.sampled_from(AB_TABLE),
+        st.sampled_from(AB_MIRROR + AB_EQUAL),
+        _ab_float.map(lambda a: [a, a]),
         st.tuples(_ab_float, _ab_float).map(list),
         st.tuples(_ab_float, _ab_float).map(list),
         U.nice_float(-0.95, 0.95).map(lambda a: [a, -a]),
@@ -255,9 +311,72 @@ def ab_class(a, b):
         return 'ab:sum=-1'
     if abs(a + b) < 1e-5 or abs(a + b + 1) < 1e-5:
         return 'ab:near-special-line'
+    if a == b:
+        return 'ab:alpha=beta'
     if float(a).is_integer() and float(b).is_integer():
         return 'ab:integer'
     return 'ab:general'
+
+
+# ---- shape parameters nearly, but not exactly, on a special case ----------------------------------------------------------
+# Every special case of the Jacobi family is a statement about exactly equal numbers: alpha = beta (ultraspherical: Legendre, Gegenbauer,
+# Chebyshev 1st / 2nd kind - no constant term in the recurrence), alpha = -beta and alpha + beta = -1 (0/0 in the closed form of the first
+# recurrence coefficients), the half-integer Chebyshev pairs, (0, 0), the Zernike / Qcon pairs (0, m).  A pair that is merely *close* to one
+# of them (relative 1e-12 .. 1e-4) is an ordinary pair and must be evaluated as such.  Unchanged code against scipy for all of these, orders
+# up to 120: <= 3e-12 of the largest value.  (Shared with C07.)
+NEAR_RELS = [1e-4, -1e-4, 3e-5, -3e-5, 1e-5, -1e-5, 3e-6, -3e-6, 1e-6, -1e-6, 1e-7, -1e-9, 1e-12]
+NEAR_BASES = [-0.9, -0.75, -0.5, -0.25, 0.25, 0.5, 1, 1.5, 2, 3, 4, 6]
+CHEBY_PAIRS = [[-0.5, -0.5], [0.5, 0.5], [-0.5, 0.5], [0.5, -0.5]]
+
+
+def near_special_pairs():
+    base = st.one_of(st.sampled_from(NEAR_BASES), U.nice_float(-0.95, 6.0).filter(lambda a: abs(a) > 1e-3))
+    rel = st.sampled_from(NEAR_RELS)
+    small = st.sampled_from([0.0, 1e-4, -1e-5, 1e-6, -1e-8, 1e-9, 1e-12])
+    return st.one_of(
+        # alpha ~ beta, either one displaced
+        st.tuples(base, rel, st.booleans()).map(lambda t: [t[0], t[0] * (1 + t[1])] if t[2] else [t[0] * (1 + t[1]), t[0]]),
+        st.tuples(base, rel, st.booleans()).map(lambda t: [t[0], t[0] * (1 + t[1])] if t[2] else [t[0] * (1 + t[1]), t[0]]),
+        # alpha ~ -beta and alpha + beta ~ -1, relative displacements (ab_pairs has the absolute ones down to 5e-17)
+        st.tuples(st.one_of(st.sampled_from([-0.9, -0.5, -0.25, 0.25, 0.5, 0.9]), U.nice_float(-0.9, 0.9).filter(lambda a: abs(a) > 1e-3)), rel).map(
+            lambda t: [t[0], -t[0] * (1 + t[1])]),
+        st.tuples(st.one_of(st.sampled_from([-0.9, -0.75, -0.5, -0.25, -0.1]), U.nice_float(-0.9, -0.1)), rel).map(lambda t: [t[0], (-1.0 - t[0]) * (1 + t[1])]),
+        # next to the Chebyshev half-integer pairs, to Legendre (0, 0) and to the Zernike / Qcon pairs (0, m)
+        st.tuples(st.sampled_from(CHEBY_PAIRS), rel, rel, st.sampled_from([0, 1, 2])).map(
+            lambda t: [t[0][0] * (1 + (t[1] if t[3] != 1 else 0.0)), t[0][1] * (1 + (t[2] if t[3] != 0 else 0.0))]),
+        st.tuples(small, small).filter(lambda t: t != (0.0, 0.0)).map(list),
+        st.tuples(small.filter(lambda d: d != 0), st.integers(1, 6), st.one_of(st.just(0.0), rel)).map(lambda t: [t[0], t[1] * (1 + t[2])]),
+    )
+
+
+def ab_pairs9():
+    """ab_pairs (tabulated, mirrored, equal, general, on / absolutely next to the lines alpha + beta = 0, -1, far ends) and the nearly-special pairs"""
+    return st.one_of(ab_pairs(), ab_pairs(), near_special_pairs())
+
+
+def ab_class9(a, b):
+    """class label of a parameter pair; pairs next to (not on) an equality-defined special case get their own classes"""
+    base = ab_class(a, b)
+    if base in ('ab:tabulated', 'ab:sum=0', 'ab:sum=-1', 'ab:alpha=beta'):
+        return base + (':chebyshev-3rd/4th-kind-like' if a == -b and a != 0 else '')
+
+    def close(p, q):
+        return abs(p - q) <= 1.5e-4 * max(1.0, abs(q))
+    if any(close(a, c[0]) and close(b, c[1]) for c in CHEBY_PAIRS):
+        return 'ab:near-chebyshev-pair'
+    if close(a, 0) and close(b, 0):
+        return 'ab:near-(0,0)'
+    if close(a, 0) and b >= 0.5 and close(b, round(b)) and (a != 0 or b != round(b)):
+        return 'ab:near-(0,m)'
+    if a != b and close(a, b):
+        return 'ab:nearly-equal'
+    if base == 'ab:near-special-line':
+        return base
+    if close(a, -b):
+        return 'ab:near-alpha=-beta:relative'
+    if close(a + b, -1.0):
+        return 'ab:near-sum=-1:relative'
+    return base
 
 
 SCALAR_SHAPES = ('pyfloat', 'npscalar')     # Python scalar / numpy scalar (np.float64, np.float32, np.int64 ...); [] is the 0-D array
@@ -352,7 +471,17 @@ def coef_vector(mask, seed, salt):
     """coefficients: mask (drawn 0/1 list) times U(-1,1) values bounded away from 0"""
     r = U.rng_of(seed, salt)
     v = r.uniform(0.2, 1.0, len(mask)) * r.choice([-1.0, 1.0], len(mask)) * _CUR['cscale']
+    if not len(mask):
+        return []
+    if _CUR['cpat'] == 'equal':
+        v = np.full(len(mask), v[0])
+    elif _CUR['cpat'] == 'alternating':
+        v = v[0] * (-1.0) ** np.arange(len(mask))
     return [float(c) if k else 0.0 for c, k in zip(v, mask)]
+
+
+def coef_label(ctx, v):
+    ctx.label('coefficients:' + v.get('cpat', 'random'))
 
 
 def masks(max_len):
@@ -398,7 +527,7 @@ CHEBYS = ['cheby1', 'cheby2', 'cheby3', 'cheby4']
 
 def fam_params(fam):
     if fam == 'jacobi':
-        return ab_pairs()
+        return ab_pairs9()
     if fam == 'laguerre':
         return st.one_of(st.sampled_from([0, 0.5, 1, 2, -0.5, -0.99, 6.0]), U.nice_float(-0.99, 6.0)).map(lambda a: [a])
     return st.just([])
@@ -444,17 +573,22 @@ def check_der_scalar(case, ctx):
     v = settle_kind(var_of(case), fam, n)
     x, base = make_points(case['seed'], shape, lo, hi, case['edge'], kind=v['xkind'])
     xarg = present(x, shape, v)
-    ctx.label(fam, n_class(n), shape_label(shape), 'edge' if case['edge'] else 'interior', 'size>2^16' if size_of(shape) > 65536 else 'size<=2^16')
+    ctx.label(fam, n_class(n), shape_label(shape), 'edge' if case['edge'] else 'interior', 'size>2^16' if size_of(shape) > 65536 else 'size<=2^16',
+              'n-as:' + v['n_as'])
     if fam == 'jacobi':
-        ctx.label(ab_class(*p))
+        ctx.label(ab_class9(*p))
+    if npar:
+        ctx.label('params-as:' + v['p_as'])
     nt = var_labels(ctx, v, shape)
     ctx.nt(nt or n <= 1 or n >= 6 or isinstance(shape, str) or len(shape) != 1 or (fam == 'jacobi' and ab_class(*p) != 'ab:tabulated')
-           or fam == 'laguerre')
+           or fam == 'laguerre' or v['n_as'] != 'int' or (npar and v['p_as'] != 'python'))
     cls = 'n=0' if n == 0 else 'n>=1'
     if v['pre32']:
         g32 = call(ctx, cls + ':float32', der, n, *p, as32(xarg))
         U.check_shape(g32, shape_tuple(shape), '%s_der:float32' % fam, '%s_der(%d, %s, float32 x)' % (fam, n, p))
     want_full = np.imag(ctx.call(val, n, *p, base + 1j * H)) / H
+    narg, parg = order_as(n, v), params_as(p, v)       # what is handed over; n and p stay the plain numbers the reference is built from
+    prefail(ctx, v, der, narg, *parg, None)
     want = shaped(want_full, shape)
     scale = float(np.max(np.abs(want_full)))
     rt = rtol_of(v, n, RT)
@@ -464,10 +598,10 @@ def check_der_scalar(case, ctx):
         U.check_shape(got, np.shape(want), bucket, '%s_der(%d, %s, x) for x of shape %s' % (fam, n, p, shape))
         U.check_close(got, want, rt, bucket, what, atol=rt * scale)
     bucket = '%s_der:%s' % (fam, cls)
-    got = call(ctx, cls, der, n, *p, xarg)
+    got = call(ctx, cls, der, narg, *parg, xarg)
     verify(got, bucket)
     n2 = n + 1 if n + 1 <= order_cap(fam) and not (v['xkind'] == 'int' and fam in HERMITES and n + 1 > 15) else n - 1
-    reuse_check(ctx, v, bucket, got, (xarg,), lambda: ctx.call(der, n2, *p, xarg), lambda: ctx.call(der, n, *p, xarg), verify)
+    reuse_check(ctx, v, bucket, got, (xarg,), lambda: ctx.call(der, n2, *p, xarg), lambda: ctx.call(der, narg, *parg, xarg), verify)
 
 
 # ---- sequence forms -------------------------------------------------------------------------------
@@ -535,7 +669,11 @@ def check_der_seq(case, ctx):
             bucket = name + (suffix or cls or (':n=0' if n == 0 else ':n>=1'))
             U.check_close(got[k], want, rt, bucket, '%s(ns=%s, params=%s, x: %s)[%d] (order %d) vs complex-step derivative of %s' % (
                 name, ns, p, v['xkind'], k, n, fam), atol=rt * scale)
-    got = call(ctx, ccls, dseq, nsarg, *p, xarg)
+    parg = params_as(p, v)
+    if npar:
+        ctx.label('params-as:' + v['p_as'])
+    prefail(ctx, v, dseq, nsarg, *parg, None)
+    got = call(ctx, ccls, dseq, nsarg, *parg, xarg)
     verify(got, '')
     ns2 = contain([n + 1 if n + 1 <= order_cap(fam) else n for n in ns][:-1] or [ns[0] + 1], v['ns_as'])     # other orders, another length
     reuse_check(ctx, v, name, got, (xarg, nsarg), lambda: ctx.call(dseq, ns2, *p, xarg), lambda: ctx.call(dseq, nsarg, *p, xarg),
@@ -562,7 +700,9 @@ def strat_zernike(tier):
     nmax = {'quick': 40, 'thorough': 80}[tier]
     return st.fixed_dictionaries({
         'nms': st.lists(nm_pairs(nmax, ZERNIKE_HIGH[tier]), min_size=1, max_size=5), 'norm': st.booleans(), 'shape': point_shapes(),
-        'rclass': st.sampled_from(['interior', 'interior', 'near0', 'zero', 'one']), 'seed': U.seeds, 'v': variants(('f64', 'f32', 'int'))})
+        'rclass': st.sampled_from(['interior', 'interior', 'near0', 'zero', 'one']), 'seed': U.seeds, 'v': variants(('f64', 'f32', 'int')),
+        # one array object given for both coordinates: the azimuth then holds the values of the radius
+        'alias': st.sampled_from([False, False, False, False, True])})
 
 
 def check_zernike(case, ctx):
@@ -580,6 +720,9 @@ def check_zernike(case, ctx):
         v['itype'] = 'int64'        # |m| itself must fit the integer type of r (NEP 50: m * r ** (m-1))
         if v['xkind'] == 'f32':
             v['xkind'] = 'f64'      # P_j^(0,|m|)(-1) = C(j+|m|, j) leaves the float32 range (inf * 0 at small r)
+    alias = bool(case.get('alias', False))
+    if alias and v['xkind'] == 'int':
+        v['xkind'] = 'f64'          # the azimuth is never integer-typed (cos of an int8 array is half precision in numpy)
     kind = v['xkind']
     if kind == 'int':
         r, rbase = make_points(case['seed'], shape, 0, 1, False, salt=1, kind='int')
@@ -598,12 +741,17 @@ def check_zernike(case, ctx):
             r.flat[0] = val_
     rarg = present(r, shape, v)
     targ = present(t, shape, v, layout=v['layout2'], kind='f32' if kind == 'f32' else 'f64')
-    ctx.label('r:' + rcls, shape_label(shape), 'norm' if norm else 'no-norm')
+    if alias:
+        t, tbase, targ = r, rbase, rarg
+    asuf = ':r-is-t' if alias else ''
+    ctx.label('r:' + rcls, shape_label(shape), 'norm' if norm else 'no-norm', 'r-is-t' if alias else 'r-and-t-separate', 'n-as:' + v['n_as'])
     var_labels(ctx, v, shape)
     ctx.nt(True)
     if v['pre32']:
         for n, m in nms:
-            ctx.call(P.zernike_nm_der, n, m, as32(rarg), as32(targ), norm=norm)
+            r32 = as32(rarg)
+            ctx.call(P.zernike_nm_der, n, m, r32, r32 if alias else as32(targ), norm=norm)
+    prefail(ctx, v, P.zernike_nm_der, nms[0][0], nms[0][1], None, None, norm=norm)
     for i, (n, m) in enumerate(nms):
         ctx.label('m=0' if m == 0 else 'm<0' if m < 0 else 'm>0', n_class(n), 'm=+-n' if abs(m) == n and n else 'm-inner')
         wr_full = np.imag(ctx.call(P.zernike_nm, n, m, rbase + 1j * H, tbase + 0j, norm=norm)) / H
@@ -615,11 +763,11 @@ def check_zernike(case, ctx):
             ctx.require(isinstance(res, tuple) and len(res) == 2, 'zernike_nm_der:return', 'expected (dr, dt), got %r' % (type(res),))
             for got, wfull, which in ((res[0], wr_full, 'radial'), (res[1], wt_full, 'azimuthal')):
                 want = shaped(wfull, shape)
-                bucket = 'zernike_nm_der:%s:%s%s' % (which, mc, suffix)
+                bucket = 'zernike_nm_der:%s:%s%s%s' % (which, mc, asuf, suffix)
                 U.check_shape(got, np.shape(want), bucket, 'zernike_nm_der(%d,%d) %s' % (n, m, which))
                 U.check_close(got, want, rt, bucket, 'zernike_nm_der(n=%d, m=%d, norm=%s, r: %s %s) %s derivative vs complex step' % (
                     n, m, norm, kind, shape_label(shape), which), atol=rt * max(float(np.max(np.abs(wfull))), 1e-6))      # floor: all base radii may be exactly 0
-        res = call(ctx, mc, P.zernike_nm_der, n, m, rarg, targ, norm=norm)
+        res = call(ctx, mc + asuf, P.zernike_nm_der, order_as(n, v), order_as(m, v), rarg, targ, norm=norm)
         verify(res, '')
         if i == 0:
             n2, m2 = n + 2, m
@@ -639,7 +787,7 @@ def check_zernike(case, ctx):
                 rt = rtol_of(v, n, RT)
                 for i, which in ((0, 'radial'), (1, 'azimuthal')):
                     wfull = refs[k][i]
-                    U.check_close(seq[k][i], shaped(wfull, shape), rt, 'zernike_nm_der_seq:' + which + suffix,
+                    U.check_close(seq[k][i], shaped(wfull, shape), rt, 'zernike_nm_der_seq:' + which + asuf + suffix,
                                   'zernike_nm_der_seq(%s)[%d] %s vs complex step' % (nms, k, which), atol=rt * max(float(np.max(np.abs(wfull))), 1e-6))      # floor: all base radii may be exactly 0
         seq = call(ctx, 'seq', P.zernike_nm_der_seq, nmarg, rarg, targ, norm=norm)
         verify_seq(seq, '')
@@ -675,14 +823,16 @@ def settle_sum_kind(v, shape):
 
 def strat_clenshaw_jacobi(tier):
     L = {'quick': 12, 'thorough': 30}[tier]
-    return st.fixed_dictionaries({'mask': st.one_of(masks(L), masks(L), masks(L), long_masks(41, 200)), 'ab': ab_pairs(), 'j': st.integers(1, 4),
+    return st.fixed_dictionaries({'mask': st.one_of(masks(L), masks(L), masks(L), long_masks(41, 200)), 'ab': ab_pairs9(), 'j': st.integers(1, 4),
                                   'shape': point_shapes(), 'edge': st.booleans(), 'seed': U.seeds, 'v': variants()})
 
 
 def check_clenshaw_jacobi(case, ctx):
     """jacobi_sum_clenshaw_der(s, a, b, x, j)[k][0] == sum_n s_n d^k/dx^k P_n^(a,b)(x) for every k = 1..j (scipy explicit sum; vectors
-    longer than 40 terms: k = 1, 2 by complex step of sum s_n P_n and of sum s_n P_n')."""
-    from prysm.polynomials import jacobi_sum_clenshaw_der, jacobi, jacobi_der
+    longer than 40 terms: k = 1, 2 by complex step of sum s_n P_n and of sum s_n P_n'); the first derivative is also the derivative of the
+    value routine it names, jacobi_sum_clenshaw (complex step), and every row k of the returned array is the derivative of row k-1 of the
+    same array ("alphas[0,0] the sum of the polynomials, alphas[1,0] the sum of the first derivative, and so on")."""
+    from prysm.polynomials import jacobi_sum_clenshaw_der, jacobi_sum_clenshaw, jacobi, jacobi_der
     mask, (a, b), j, shape = case['mask'], case['ab'], case['j'], case['shape']
     v = var_of(case)
     v = settle_sum_kind(v, shape)
@@ -692,13 +842,25 @@ def check_clenshaw_jacobi(case, ctx):
     xarg = present(x, shape, v)
     M = len(s) - 1
     long_ = M >= 40
-    ctx.label(mask_class(mask), 'j=%d' % j, ab_class(a, b), shape_label(shape), 'j>=len(s)' if j > M else 'j<len(s)', 'cs-as:' + v['cs_as'],
-              'len>40' if long_ else 'len<=40')
+    abcls = ab_class9(a, b)
+    ctx.label(mask_class(mask), 'j=%d' % j, abcls, shape_label(shape), 'j>=len(s)' if j > M else 'j<len(s)', 'cs-as:' + v['cs_as'],
+              'len>40' if long_ else 'len<=40', 'alpha=-beta!=0' if a == -b and a != 0 else 'alpha=beta' if a == b else 'alpha!=+-beta',
+              'n-as:' + v['n_as'], 'params-as:' + v['p_as'], 'alphas=:' + v['buf'])
+    coef_label(ctx, v)
     nt = var_labels(ctx, v, shape)
     ctx.nt(nt or j >= 2 or len(s) == 1 or not all(mask) or ab_class(a, b) != 'ab:tabulated' or v['cs_as'] != 'list')
     vcls = 'len1' if M == 0 else 'j=1' if j == 1 else 'j>=2,j>=len(s)' if j > M else 'j>=2'
     if v['pre32']:
         call(ctx, vcls + ':float32', jacobi_sum_clenshaw_der, sarg, a, b, as32(xarg), j=j)
+    jarg = order_as(j, v)
+    aarg, barg = params_as([a, b], v)
+    kw = {}
+    if v['buf'] != 'none':
+        # a caller-supplied workspace of the documented shape (j+1, len(s), *x.shape), fresh or already used by a call of the same shape
+        kw['alphas'] = np.zeros((j + 1, len(s)) + shape_tuple(shape), dtype=xarg.dtype if hasattr(xarg, 'dtype') else float)
+        if v['buf'] == 'used':
+            ctx.call(jacobi_sum_clenshaw_der, [1.0 - 0.5 * c for c in s], b + 0.5, a + 0.25, xarg, j=j, **kw)
+    prefail(ctx, v, jacobi_sum_clenshaw_der, sarg, aarg, barg, None, j=jarg)
     refs = {}
     for k in range(1, (min(j, 2) if long_ else j) + 1):
         full = np.zeros_like(base)
@@ -726,10 +888,30 @@ def check_clenshaw_jacobi(case, ctx):
     bucket = 'jacobi_sum_clenshaw_der:%s' % vcls
     if case['seed'] % 2:        # other entry point: x by keyword, as compute_z_zprime_Qcon passes it
         ctx.label('x-by-keyword')
-        alphas = call(ctx, vcls, jacobi_sum_clenshaw_der, sarg, a, b, x=xarg, j=j)
+        alphas = call(ctx, vcls, jacobi_sum_clenshaw_der, sarg, aarg, barg, x=xarg, j=jarg, **kw)
     else:
-        alphas = call(ctx, vcls, jacobi_sum_clenshaw_der, sarg, a, b, xarg, j=j)
+        alphas = call(ctx, vcls, jacobi_sum_clenshaw_der, sarg, aarg, barg, xarg, j=jarg, **kw)
     verify(alphas, bucket)
+    # ... and the derivative of the value routine it names: complex step through jacobi_sum_clenshaw itself, and through row k-1 of
+    # the array the derivative routine returns (complex128 points of the base vector; same coefficients, same parameters)
+    pcls = 'alpha=-beta!=0' if a == -b and a != 0 else 'alpha=beta' if a == b else 'general-parameters'
+    zb = base + 1j * H
+    scale_v = refs[1][1]       # sum over the terms of |s_n| max |P_n'|
+    dval = np.imag(ctx.call(jacobi_sum_clenshaw, sarg, a, b, zb)) / H
+    U.check_shape(dval, base.shape, 'jacobi_sum_clenshaw:complex-points', 'value sum at %d complex points' % base.size)
+    got1 = alphas[1][0]
+    U.check_close(got1, shaped(dval, shape), rt, 'jacobi_sum_clenshaw_der:vs-jacobi_sum_clenshaw:%s:%s' % (pcls, 'len1' if M == 0 else 'len2' if M == 1 else 'len>=3'),
+                  'jacobi_sum_clenshaw_der(s=%s, a=%r, b=%r, x: %s %s, j=%d)[1][0] vs the complex-step derivative of jacobi_sum_clenshaw(s, a, b, x)' % (
+                      s if len(s) <= 12 else '<%d terms>' % len(s), a, b, v['xkind'], shape_label(shape), j), atol=rt * max(scale_v, 1e-300))
+    rows = ctx.call(jacobi_sum_clenshaw_der, sarg, a, b, zb, j=j)
+    for k in range(1, j + 1):
+        if k not in refs:
+            continue        # vectors of more than 40 terms: the term-wise scale of the comparison is built for k = 1, 2 only
+        sc = refs[k][1]
+        wantk = np.imag(rows[k - 1][0]) / H
+        U.check_close(alphas[k][0], shaped(wantk, shape), rt, 'jacobi_sum_clenshaw_der:row-k-vs-row-k-1:%s:%s' % (pcls, 'k=1' if k == 1 else 'k>=2'),
+                      'jacobi_sum_clenshaw_der(s=%s, a=%r, b=%r, x: %s %s, j=%d): row %d vs the complex-step derivative of row %d of the same routine' % (
+                          s if len(s) <= 12 else '<%d terms>' % len(s), a, b, v['xkind'], shape_label(shape), j, k, k - 1), atol=rt * max(sc, 1e-300))
     s2 = contain([-2.0 * c + 0.25 for c in s] + [0.5], 'list')
     reuse_check(ctx, v, bucket, alphas, (xarg, sarg), lambda: ctx.call(jacobi_sum_clenshaw_der, s2, a, b, xarg, j=j),
                 lambda: ctx.call(jacobi_sum_clenshaw_der, sarg, a, b, xarg, j=j), verify)
@@ -757,9 +939,11 @@ def strat_clenshaw_q(tier):
 
 
 def check_clenshaw_q(case, ctx):
-    """clenshaw_qbfs_der / clenshaw_q2d_der rows k=1..j == d^k/dx^k (x=u^2) of sum c_n Q_n(x), Q_n taken from Qbfs / Q2d (Cauchy integral)."""
+    """clenshaw_qbfs_der / clenshaw_q2d_der rows k=1..j == d^k/dx^k (x=u^2) of sum c_n Q_n(x), Q_n taken from Qbfs / Q2d (Cauchy integral);
+    the first derivative is also the derivative of the value routine it names (clenshaw_qbfs: x(1-x) S(x); clenshaw_q2d: the alpha sums that
+    make up S), by complex step, and every row k of the returned array is the derivative of row k-1 of the same array."""
     from prysm.polynomials import Qbfs, Q2d
-    from prysm.polynomials.qpoly import clenshaw_qbfs_der, clenshaw_q2d_der
+    from prysm.polynomials.qpoly import clenshaw_qbfs_der, clenshaw_q2d_der, clenshaw_qbfs, clenshaw_q2d
     kind, mask, m, j, shape = case['kind'], case['mask'], case['m'], case['j'], case['shape']
     v = settle_sum_kind(var_of(case, ('f64', 'f32', 'complex')), shape)
     cs = coefs_of(mask, case['seed'], 4, v['cs_as'])
@@ -767,9 +951,13 @@ def check_clenshaw_q(case, ctx):
     x, base = make_points(case['seed'], shape, 0.2, 0.8, False, kind=v['xkind'])
     xarg = present(x, shape, v)
     N = len(cs) - 1
-    ctx.label(kind, mask_class(mask), 'j=%d' % j, shape_label(shape), 'j>=len' if j > N else 'j<len', 'cs-as:' + v['cs_as'])
+    use_buf = v['buf'] if N >= 1 else 'none'        # a workspace of the documented shape (j+1, len(cs), ...) has room for the recurrence from two terms on
+    ctx.label(kind, mask_class(mask), 'j=%d' % j, shape_label(shape), 'j>=len' if j > N else 'j<len', 'cs-as:' + v['cs_as'], 'n-as:' + v['n_as'],
+              'alphas=:' + use_buf)
     if kind == 'q2d':
         ctx.label('m=%s' % (m if m <= 3 else '4..8' if m <= 8 else '>8'))
+    jarg, marg = order_as(j, v), order_as(m, v)
+    coef_label(ctx, v)
     nt = var_labels(ctx, v, shape)
     ctx.nt(nt or j >= 2 or len(cs) == 1 or not all(mask) or v['cs_as'] != 'list')
     vcls = 'len1' if N == 0 else 'j=1' if j == 1 else 'j>=2,j>=len' if j > N else 'j>=2'
@@ -779,16 +967,22 @@ def check_clenshaw_q(case, ctx):
             u = np.sqrt(z)
             return sum(c * Qbfs(n, u) for n, c in enumerate(cs) if c != 0) / (z * (1 - z)) if any(cs) else np.zeros_like(z)
 
-        def run(c_, x_):
-            return clenshaw_qbfs_der(c_, x_, j=j)
+        def run(c_, x_, **kw_):
+            return clenshaw_qbfs_der(c_, x_, j=jarg, **kw_)
+
+        def comb(a_):       # S from one row of alpha sums
+            return 2 * (a_[0] + a_[1]) if np.shape(a_)[0] > 1 else 2 * a_[0]
     else:
         def S(z):   # Q_n^m(u^2) = Q2d(n, m, u, 0) / u^m
             u = np.sqrt(z)
             t = np.zeros_like(u)
             return sum(c * Q2d(n, m, u, t) for n, c in enumerate(cs) if c != 0) / u ** m if any(cs) else np.zeros_like(z)
 
-        def run(c_, x_):
-            return clenshaw_q2d_der(c_, m, x_, j=j)
+        def run(c_, x_, **kw_):
+            return clenshaw_q2d_der(c_, marg, x_, j=jarg, **kw_)
+
+        def comb(a_):
+            return 0.5 * a_[0] - 2 / 5 * a_[3] if m == 1 and N > 2 else 0.5 * a_[0]
     run.__name__ = run.__qualname__ = 'clenshaw_%s_der' % kind
     if v['pre32']:
         call(ctx, vcls + ':float32', run, carg, as32(xarg))
@@ -811,8 +1005,40 @@ def check_clenshaw_q(case, ctx):
             U.check_close(got, want, rt, bucket, 'clenshaw_%s_der(cs=%s%s, x: %s %s, j=%d): derivative of order %d w.r.t. u^2' % (
                 kind, cs, '' if kind == 'qbfs' else ', m=%d' % m, v['xkind'], shape_label(shape), j, k), atol=rt * float(np.max(np.abs(derivs[k]))) + noise)
     bucket = 'clenshaw_%s_der:%s%s' % (kind, vcls, ':integer-coefficient-array' if v['cs_as'] == 'intarray' else '')
-    alphas = call(ctx, vcls, run, carg, xarg)
-    verify(alphas, bucket)
+    kw = {}
+    if use_buf != 'none':
+        # caller-supplied workspace, fresh or already used by a call of the same shape (other coefficients, other points)
+        kw['alphas'] = np.zeros((j + 1, len(cs)) + shape_tuple(shape), dtype=xarg.dtype if hasattr(xarg, 'dtype') else float)
+        if use_buf == 'used':
+            ctx.call(run, [0.75 - 2.0 * c for c in cs], xarg * 0.5 + 0.1, **kw)
+    prefail(ctx, v, run, carg, None)
+    alphas = call(ctx, vcls + ('' if use_buf == 'none' else ':alphas-given'), run, carg, xarg, **kw)
+    verify(alphas, bucket + ('' if use_buf == 'none' else ':alphas-' + use_buf))
+    # ... the derivative of the value routine it names, and of its own lower rows (complex step at the complex128 base points)
+    zb = base + 1j * H
+    if kind == 'qbfs':
+        # clenshaw_qbfs returns x (1 - x) S(x): its derivative is (1 - 2x) S + x (1 - x) S'
+        dval = np.imag(ctx.call(clenshaw_qbfs, carg, zb)) / H
+        xr = np.asarray(x, dtype=float)
+        got1 = (1 - 2 * xr) * comb(alphas[0]) + xr * (1 - xr) * comb(alphas[1])
+        sc1 = float(np.max(np.abs(derivs[0]))) + float(np.max(np.abs(derivs[1])))
+        vname = 'clenshaw_qbfs(cs, x) = x (1 - x) S(x)'
+    else:
+        dval = np.imag(comb(ctx.call(clenshaw_q2d, carg, m, zb))) / H
+        got1 = comb(alphas[1])
+        sc1 = float(np.max(np.abs(derivs[1])))
+        vname = 'the sum S(x) formed from clenshaw_q2d(cs, m, x)'
+    U.check_close(got1, shaped(dval, shape), rt, 'clenshaw_%s_der:vs-clenshaw_%s:%s' % (kind, kind, 'len1' if N == 0 else 'len>=2'),
+                  'clenshaw_%s_der(cs=%s%s, x: %s %s, j=%d): first derivative vs the complex-step derivative of %s' % (
+                      kind, cs, '' if kind == 'qbfs' else ', m=%d' % m, v['xkind'], shape_label(shape), j, vname),
+                  atol=rt * sc1 + 1e-12 * fmax / 0.15)
+    rows = ctx.call(run, carg, zb)
+    for k in range(1, j + 1):
+        wantk = np.imag(comb(rows[k - 1])) / H
+        U.check_close(comb(alphas[k]), shaped(wantk, shape), rt, 'clenshaw_%s_der:row-k-vs-row-k-1:%s' % (kind, 'k=1' if k == 1 else 'k>=2'),
+                      'clenshaw_%s_der(cs=%s%s, x: %s %s, j=%d): S from row %d vs the complex-step derivative of S from row %d of the same routine' % (
+                          kind, cs, '' if kind == 'qbfs' else ', m=%d' % m, v['xkind'], shape_label(shape), j, k, k - 1),
+                      atol=rt * float(np.max(np.abs(derivs[k]))) + 1e-12 * fmax * math.factorial(k) / 0.15 ** k)
     c2 = [0.5 - c for c in cs] + [1.0]
     reuse_check(ctx, v, bucket, alphas, (xarg, carg), lambda: ctx.call(run, c2, xarg), lambda: ctx.call(run, carg, xarg), verify)
 
@@ -835,6 +1061,7 @@ def check_zprime(case, ctx):
     uarg = present(u, shape, v)
     usq = uarg * uarg
     ctx.label(kind, mask_class(mask), shape_label(shape), 'edge' if case['edge'] else 'interior', 'cs-as:' + v['cs_as'], 'len>24' if len(cs) > 24 else 'len<=24')
+    coef_label(ctx, v)
     nt = var_labels(ctx, v, shape)
     ctx.nt(nt or len(cs) == 1 or not all(mask) or isinstance(shape, str) or len(shape) != 1 or v['cs_as'] != 'list')
     Q = Qbfs if kind == 'Qbfs' else Qcon
@@ -859,8 +1086,16 @@ def check_zprime(case, ctx):
         U.check_close(res[1], want, rt, bucket, 'compute_z_zprime_%s(cs=%s, u: %s %s): slope vs complex-step derivative of sum c_n %s(n,u)' % (
             kind, cs if len(cs) <= 12 else '<%d terms>' % len(cs), v['xkind'], shape_label(shape), kind), atol=rt * scale)
     bucket = 'compute_z_zprime_%s:slope:%s%s' % (kind, lcls, ':integer-coefficient-array' if v['cs_as'] == 'intarray' else '')
+    prefail(ctx, v, fn, carg, None, None)
     res = call(ctx, lcls, fn, carg, uarg, usq)
     verify(res, bucket)
+    # the slope is the derivative of the sag the same call returns: complex step through the evaluator's own first output
+    zb = base + 1j * H
+    own = ctx.call(fn, carg, zb, zb * zb)
+    ctx.require(isinstance(own, tuple) and len(own) == 2, 'compute_z_zprime_%s:return' % kind, 'expected (z, zprime)')
+    U.check_close(res[1], shaped(np.imag(own[0]) / H, shape), rt, 'compute_z_zprime_%s:slope-vs-own-sag:%s' % (kind, lcls),
+                  'compute_z_zprime_%s(cs=%s, u: %s %s): slope vs complex-step derivative of the sag returned by the same routine' % (
+                      kind, cs if len(cs) <= 12 else '<%d terms>' % len(cs), v['xkind'], shape_label(shape)), atol=rt * scale)
     c2 = [0.5 - c for c in cs] + [1.0]
     reuse_check(ctx, v, bucket, res, (uarg, usq, carg), lambda: ctx.call(fn, c2, uarg, usq), lambda: ctx.call(fn, carg, uarg, usq), verify)
 
@@ -930,7 +1165,7 @@ def q2d_labels(ctx, case):
 
 def strat_q2d(tier):
     return st.fixed_dictionaries({'coefs': q2d_coefs(tier), 'shape': point_shapes(4), 'edge': st.booleans(), 'seed': U.seeds,
-                                  'v': variants(('f64', 'f32'))})
+                                  'v': variants(('f64', 'f32')), 'alias': st.sampled_from([False, False, False, False, True])})
 
 
 def q2d_explicit(ctx, modes, ubase, tbase):
@@ -956,6 +1191,7 @@ def check_q2d(case, ctx):
     cm0, ams, bms = q2d_expand(case, v['cs_as'])
     cargs = q2d_contain(cm0, ams, bms, v['cs_as'])
     cls = q2d_labels(ctx, case)
+    coef_label(ctx, v)
     ctx.label(shape_label(shape), 'cs-as:' + v['cs_as'])
     var_labels(ctx, v, shape)
     ctx.nt(True)
@@ -963,9 +1199,16 @@ def check_q2d(case, ctx):
     t, tbase = make_points(case['seed'], shape, -math.pi, 2 * math.pi, False, salt=2, kind=v['xkind'])
     uarg = present(u, shape, v)
     targ = present(t, shape, v, layout=v['layout2'])
+    alias = bool(case.get('alias', False))
+    if alias:       # one object for both coordinates: the azimuth holds the values of the radius
+        t, tbase, targ = u, ubase, uarg
+        cls += ':u-is-t'
+    ctx.label('u-is-t' if alias else 'u-and-t-separate')
     modes = q2d_modes(cm0, ams, bms)
     if v['pre32']:
-        call(ctx, cls + ':float32', compute_z_zprime_Q2d, *cargs, as32(uarg), as32(targ))
+        u32 = as32(uarg)
+        call(ctx, cls + ':float32', compute_z_zprime_Q2d, *cargs, u32, u32 if alias else as32(targ))
+    prefail(ctx, v, compute_z_zprime_Q2d, *cargs, None, None)
     dr, dt, sr, st_ = q2d_explicit(ctx, modes, ubase, tbase)
     rt = rtol_of(v, 12, 1e-8)
     isuf = ':integer-coefficient-array' if v['cs_as'] == 'intarray' else ''
@@ -980,6 +1223,13 @@ def check_q2d(case, ctx):
                 cm0, ams, bms, v['xkind'], shape_label(shape), which), atol=rt * sc)
     res = call(ctx, cls, compute_z_zprime_Q2d, *cargs, uarg, targ)
     verify(res, '')
+    # both slopes are the derivatives of the sag the same call returns: complex step in u, then in t, through the evaluator's own first output
+    for which, got, zu, zt, sc in (('radial', res[1], ubase + 1j * H, tbase + 0j, sr), ('azimuthal', res[2], ubase + 0j, tbase + 1j * H, st_)):
+        own = ctx.call(compute_z_zprime_Q2d, *cargs, zu, zt)
+        ctx.require(isinstance(own, tuple) and len(own) == 3, 'compute_z_zprime_Q2d:return', 'expected (z, dr, dt)')
+        U.check_close(got, shaped(np.imag(own[0]) / H, shape), rt, 'compute_z_zprime_Q2d:%s:slope-vs-own-sag:%s%s' % (which, cls, isuf),
+                      'compute_z_zprime_Q2d(cm0=%s, ams=%s, bms=%s, u: %s %s): %s slope vs complex-step derivative of the sag returned by the same routine' % (
+                          cm0, ams, bms, v['xkind'], shape_label(shape), which), atol=rt * sc)
     other = [[0.5] + [1.0 - c for c in cm0], [[0.25, -0.5, 1.0]] + [list(a) for a in ams], [[1.0]] + [list(b) for b in bms]]
     reuse_check(ctx, v, 'compute_z_zprime_Q2d', res, (uarg, targ, cargs), lambda: ctx.call(compute_z_zprime_Q2d, *other, uarg, targ),
                 lambda: ctx.call(compute_z_zprime_Q2d, *cargs, uarg, targ), lambda g, b: verify(g, b[len('compute_z_zprime_Q2d'):]))
@@ -995,12 +1245,28 @@ def conic_k():
     return st.one_of(st.sampled_from(K_SPECIAL), U.nice_float(-3.0, 2.0))
 
 
+# curvatures: ordinary ones of either sign, exactly zero (a plane base: Python int 0, 0.0, -0.0) and next to zero (formulas that branch on c == 0)
+# (the smallest ones square to exactly 0 inside the library; not smaller than 1e-200: the oracle's imaginary step of 1e-30 times c must not underflow)
+C_SPECIAL = [0, 0.0, 0.0, -0.0, 1e-9, -1e-12, -1e-200, 1e-160]
+
+
+def conic_c():
+    plain = st.tuples(U.nice_float(0.01, 0.5), st.sampled_from([1, -1])).map(lambda t: t[0] * t[1])
+    return st.one_of(plain, plain, plain, st.sampled_from(C_SPECIAL))
+
+
+def c_class(c):
+    return 'c=0' if c == 0 else 'c-tiny' if abs(c) < 1e-6 else 'c-plain'
+
+
 def strat_conics(tier):
     return st.fixed_dictionaries({
-        'fn': st.sampled_from(['sphere', 'conic', 'dircos', 'off_axis', 'sigma', 'ffp_conic', 'ffp_off_axis', 'ffp_sphere']),
-        'c': st.tuples(U.nice_float(0.01, 0.5), st.sampled_from([1, -1])).map(lambda t: t[0] * t[1]),
+        'fn': st.sampled_from(['sphere', 'conic', 'dircos', 'off_axis', 'sigma', 'ffp_conic', 'ffp_off_axis', 'ffp_sphere'] * 3 + ['off_axis', 'sigma', 'ffp_off_axis'] * 2 + ['ffp_plane']),
+        'c': conic_c(),
+        # Surface objects: built with the drawn parameters, or built with others and given the drawn ones through the public params dict
+        'via_params': st.sampled_from([False, False, True]),
         'k': conic_k(), 'qmax': st.sampled_from(QMAX), 'edge': st.booleans(), 'phi_given': st.booleans(),
-        'fs': U.nice_float(0.05, 0.6), 'axis': st.sampled_from(['dx', 'dy', 'none', '-dx', '-dy']), 'fr': st.one_of(U.nice_float(0.05, 0.95), st.just(1.0)),
+        'fs': U.nice_float(0.05, 0.6), 'axis': st.sampled_from(['dx', 'dy', 'none', '-dx', '-dy', 'dx', 'dy', '~dx', '~dy']), 'fr': st.one_of(U.nice_float(0.05, 0.95), st.just(1.0)),
         'shape': point_shapes(4), 'seed': U.seeds, 'v': variants()})
 
 
@@ -1012,12 +1278,14 @@ def conic_geometry(case, v=None):
     qmax = case.get('qmax', 0.8)
     if v is not None and v['xkind'] == 'f32':
         qmax = 0.8        # single precision loses eps32 / (1 - q) next to the edge of the domain: stay where the conditioning is ~1
-    lim = qmax / (max(1 + k, -k, 0.05) * c * c)
-    L = min(math.sqrt(lim), 20.0)
+    csq = float(c) * float(c)       # 0 for a plane and for |c| < 1e-162: no limit from the square roots then
+    L = min(math.sqrt(qmax / (max(1 + k, -k, 0.05) * csq)), 20.0) if csq > 1e-300 else 20.0
     axis = case['axis']
     if 'qmax' in case and case['fn'] in ('sphere', 'conic', 'dircos', 'ffp_conic', 'ffp_sphere'):
         axis = 'none'       # rotationally symmetric helpers: no shift to make room for, rho reaches the drawn edge of the domain
     s = 0.0 if axis == 'none' else case['fs'] * L * (-1 if axis.startswith('-') else 1)
+    if axis.startswith('~'):
+        s = 1e-9 * L        # a shift next to, but not at, zero (the helpers branch on dx != 0)
     rmax = case['fr'] * (L - abs(s))
     dx, dy = (s, 0.0) if axis.endswith('dx') else (0.0, s)
     return c, k, dx, dy, rmax
@@ -1037,6 +1305,8 @@ def check_conics(case, ctx):
         v['xkind'] = 'f64'       # polar conversion / in-place combination of r and t: real coordinates only
     if v['itype'] in ('int8', 'int16'):
         v['itype'] = 'int32'     # numpy takes sqrt / arctan2 of 8- and 16-bit integers in half / single precision
+    if v['xkind'] == 'f32' and 0 < abs(case['c']) < 1e-20:
+        v['xkind'] = 'f64'       # slopes of order c leave the single-precision range
     c, k, dx, dy, rmax = conic_geometry(case, v)
     kind = v['xkind']
     edge = case.get('edge', False) or case.get('qmax', 0.8) > 0.9      # next to the edge of the domain: the outermost point is on rho_max
@@ -1045,21 +1315,36 @@ def check_conics(case, ctx):
     else:
         rho, rbase = make_points(case['seed'], shape, 0.02 * rmax, rmax, edge, salt=1, kind=kind)
     t, tbase = make_points(case['seed'], shape, -math.pi, 2 * math.pi, False, salt=2, kind='f32' if kind == 'f32' else 'f64')
-    kcls = k_class(k)
+    kcls = k_class(k) + ('' if c_class(c) == 'c-plain' else ':' + c_class(c)) + (':shift~0' if 0 < abs(dx) + abs(dy) < 1e-6 else '')       # the special classes of the parameters name the bucket
     q = max(1 + k, 0.0) * c * c * float(np.max(rbase)) ** 2
-    ctx.label(fn, kcls, shape_label(shape), 'shift:' + ('none' if dx == dy == 0 else 'x' if dx else 'y'),
+    ctx.label(fn, k_class(k), c_class(c), shape_label(shape), 'shift:' + ('none' if dx == dy == 0 else 'x' if dx else 'y') + ('~0' if 0 < abs(dx) + abs(dy) < 1e-6 else ''),
               'k-near-special' if k not in (0, -1) and (abs(k) < 1e-5 or abs(k + 1) < 1e-5) else 'k-plain',
               'q>0.99' if q > 0.99 else 'q>0.8' if q > 0.8 else 'q<=0.8')
     nt = var_labels(ctx, v, shape)
-    ctx.nt(nt or k != 0 or dx != 0 or dy != 0 or isinstance(shape, str) or len(shape) != 1)
+    ctx.nt(nt or k != 0 or dx != 0 or dy != 0 or isinstance(shape, str) or len(shape) != 1 or c_class(c) != 'c-plain')
     rt = rtol_of(v, 0, RT)
     rt8 = rtol_of(v, 0, 1e-8)
+    if fn == 'ffp_plane':
+        # Surface.plane: sag and both slopes vanish identically (x : ndarray with at least one axis - the unchanged code broadcasts a
+        # length-1 vector to x.shape, which numpy refuses for a 0-D target)
+        pshape = [1] if isinstance(shape, str) or len(shape) == 0 else shape
+        xs, _ = make_points(case['seed'], pshape, -rmax, rmax, False, salt=1, kind='f32' if kind == 'f32' else 'f64')
+        ys, _ = make_points(case['seed'], pshape, -rmax, rmax, False, salt=2, kind='f32' if kind == 'f32' else 'f64')
+        pk = 'f32' if kind == 'f32' else 'f64'
+        x, y = present(xs, pshape, v, kind=pk), present(ys, pshape, v, layout=v['layout2'], kind=pk)
+        surf = ctx.call(S.Surface.plane, 'eval', [0, 0, 0])
+        res = call(ctx, 'plane', surf.FFp, x, y)
+        ctx.require(len(res) == 3, 'Surface.plane.FFp:return', 'expected (z, dx, dy)')
+        for got, which in ((res[0], 'sag'), (res[1], 'd/dx'), (res[2], 'd/dy')):
+            U.check_shape(got, shape_tuple(pshape), 'Surface.plane.FFp', which)
+            U.check_equal(np.asarray(got, dtype=float), np.zeros(shape_tuple(pshape)), 'Surface.plane.FFp', which + ' of a plane')
+        return
 
     def cmp(got, wfull, bucket, what):
         want = shaped(wfull, shape)
         U.check_shape(got, np.shape(want), bucket, what)
         U.check_close(got, want, rt, bucket, what + ' (c=%r, k=%r, dx=%r, dy=%r, rho: %s %s)' % (c, k, dx, dy, kind, shape_label(shape)),
-                      atol=rt * max(float(np.max(np.abs(wfull))), 1e-6))      # floor: all base radii may be exactly 0
+                      atol=rt * max(float(np.max(np.abs(wfull))), 1e-6 * min(1.0, abs(c))))      # floor: all base radii may be exactly 0; it scales with c (0 for a plane: exact)
 
     rc = rbase + 1j * H
     rarg = present(rho, shape, v)
@@ -1132,28 +1417,50 @@ def check_conics(case, ctx):
             xs, ys = float(xs), float(ys)
         x = present(xs, shape, v)
         y = present(ys, shape, v, layout=v['layout2'])
+        # the surface object is built with the drawn parameters, or with others (a weaker curvature of the same sign, half the shift:
+        # inside the same real domain) and handed the drawn ones through its public params dict afterwards
+        via = bool(case.get('via_params', False))
+        c0, k0, dx0, dy0 = (0.5 * c + (0.001 if c >= 0 else -0.001), k, 0.5 * dx, 0.5 * dy) if via else (c, k, dx, dy)
+        ctx.label('parameters:' + ('assigned-through-params' if via else 'at-construction'))
         if fn == 'ffp_conic':
-            surf = ctx.call(S.Surface.conic, c, k, 'eval', [0, 0, 0])
-            sx = sy = 0.0
+            surf = ctx.call(S.Surface.conic, c0, k0, 'eval', [0, 0, 0])
+            sx = sy = sx0 = sy0 = 0.0
         elif fn == 'ffp_sphere':
-            surf = ctx.call(S.Surface.sphere, c, 'eval', [0, 0, 0], None)
-            sx = sy = 0.0
+            surf = ctx.call(S.Surface.sphere, c0, 'eval', [0, 0, 0], None)
+            sx = sy = sx0 = sy0 = 0.0
         else:
-            surf = ctx.call(S.Surface.off_axis_conic, c, k, 'eval', [0, 0, 0], dy=dy, dx=dx)
-            sx, sy = dx, dy
+            surf = ctx.call(S.Surface.off_axis_conic, c0, k0, 'eval', [0, 0, 0], dy=dy0, dx=dx0)
+            sx, sy, sx0, sy0 = dx, dy, dx0, dy0
 
-        def sag(xx, yy):
-            A = (xx + sx) ** 2 + (yy + sy) ** 2
-            return c * A / (1 + np.sqrt(1 - (1 + k) * c * c * A))
+        def sag_of(cc, sx_, sy_):
+            def sag(xx, yy):
+                A = (xx + sx_) ** 2 + (yy + sy_) ** 2
+                return cc * A / (1 + np.sqrt(1 - (1 + k) * cc * cc * A))
+            return sag
+        sag = sag_of(c, sx, sy)
         if v['pre32']:
             call(ctx, 'float32', surf.FFp, as32(x), as32(y))
+        if via:
+            ctx.require(isinstance(surf.params, dict) and 'c' in surf.params, 'Surface.params', 'Surface.%s keeps its parameters in the params dict' % fn[4:])
+            surf.params['c'] = c
+            if 'dx' in surf.params:
+                surf.params['dx'], surf.params['dy'] = dx, dy
         wx = np.imag(sag(xb + 1j * H, yb + 0j)) / H
         wy = np.imag(sag(xb + 0j, yb + 1j * H)) / H
         sc = max(float(np.max(np.abs(wx))), float(np.max(np.abs(wy))))
-        bucket = 'Surface.%s.FFp:%s' % (fn[4:], kcls)
+        bucket = 'Surface.%s.FFp:%s%s' % (fn[4:], kcls, ':parameters-assigned-through-params' if via else '')
+        zscale = max(float(np.max(np.abs(sag(xb, yb)))), 1e-300)
 
         def verify(res, bucket):
             ctx.require(len(res) == 3, fn + ':return', 'expected (z, dx, dy)')
+            if via:
+                # the slopes must be those of the sag that the same call returns: that sag follows the assigned parameters on the unchanged
+                # code; were it to follow the construction-time ones (or neither), nothing is asserted here - C09 is about sag and slope agreeing
+                zgot = np.asarray(res[0], dtype=float)
+                zwant = shaped(sag(xb, yb), shape)
+                if zgot.shape != np.shape(zwant) or not np.all(np.abs(zgot - zwant) <= max(rt8, 1e-6 if kind == 'f32' else 0) * zscale + 1e-300):
+                    ctx.label('sag-does-not-follow-params')
+                    return
             for got, wfull, which in ((res[1], wx, 'd/dx'), (res[2], wy, 'd/dy')):
                 want = shaped(wfull, shape)
                 U.check_shape(got, np.shape(want), bucket, which)
@@ -1168,9 +1475,15 @@ def check_conics(case, ctx):
 def strat_q2d_surface(tier):
     return st.fixed_dictionaries({
         'coefs': q2d_coefs(tier),
-        'c': st.tuples(U.nice_float(0.01, 0.5), st.sampled_from([1, -1])).map(lambda t: t[0] * t[1]),
+        'c': conic_c(),
         'k': conic_k(), 'qmax': st.sampled_from(QMAX),
-        'fs': U.nice_float(0.05, 0.6), 'axis': st.sampled_from(['dx', 'dy', 'none', 'none', '-dx', '-dy']), 'fr': U.nice_float(0.3, 0.95),
+        # normalization radius: the edge of the sampled aperture, wider than it, or exactly 1 (the points then lie inside the unit disk)
+        'Rmode': st.sampled_from(['aperture', 'aperture', 'wider', 'much-wider', 'unit', 'near-unit']),
+        # dx, dy positionally or by keyword, or left at their defaults when there is no shift
+        'shift_as': st.sampled_from(['positional', 'keyword', 'default']),
+        # one array object given as x and as y: points on the diagonal
+        'alias': st.sampled_from([False, False, False, False, True]),
+        'fs': U.nice_float(0.05, 0.6), 'axis': st.sampled_from(['dx', 'dy', 'none', 'none', '-dx', '-dy'] * 2 + ['~dx', '~dy']), 'fr': U.nice_float(0.3, 0.95),
         'fn': st.just('q2d'), 'shape': point_shapes(4).filter(lambda s: isinstance(s, str) or len(s) != 1), 'seed': U.seeds,   # 1-D x, y mean a grid (cart_to_polar)
         'v': variants(('f64', 'f32', 'int'))})
 
@@ -1183,16 +1496,28 @@ def check_q2d_surface(case, ctx):
     v = var_of(case, ('f64', 'f32', 'int'))
     if v['itype'] in ('int8', 'int16'):
         v['itype'] = 'int32'     # numpy takes sqrt / arctan2 of 8- and 16-bit integers in half / single precision
+    if v['xkind'] == 'f32' and 0 < abs(case['c']) < 1e-20:
+        v['xkind'] = 'f64'       # base slopes of order c leave the single-precision range
     kind = v['xkind']
     c, k, dx, dy, rmax = conic_geometry(case, v)
     cm0, ams, bms = q2d_expand(case, v['cs_as'])
     cargs = q2d_contain(cm0, ams, bms, v['cs_as'])
     cls = q2d_labels(ctx, case)
-    kcls = 'k=0' if k == 0 else 'k!=0'
-    ctx.label(kcls, shape_label(shape), 'shift:' + ('none' if dx == dy == 0 else 'x' if dx else 'y'), 'cs-as:' + v['cs_as'])
+    kcls = ('k=0' if k == 0 else 'k!=0') + ('' if c_class(c) == 'c-plain' else ':' + c_class(c))
+    rmode = case.get('Rmode', 'aperture')
+    if rmode in ('unit', 'near-unit'):
+        rmax = min(rmax, 1.0)
+    R = {'aperture': rmax, 'wider': 1.5 * rmax, 'much-wider': 4.0 * rmax, 'unit': 1.0, 'near-unit': 1.000001}[rmode]
+    shift_as = case.get('shift_as', 'positional')
+    if shift_as == 'default' and (dx != 0 or dy != 0):
+        shift_as = 'keyword'
+    skw = {'positional': lambda: ((dx, dy), {}), 'keyword': lambda: ((), {'dy': dy, 'dx': dx}), 'default': lambda: ((), {})}[shift_as]
+    ctx.label('k=0' if k == 0 else 'k=-1' if k == -1 else 'k!=0', c_class(c), shape_label(shape), 'shift:' + ('none' if dx == dy == 0 else 'x' if dx else 'y') + ('~0' if 0 < abs(dx) + abs(dy) < 1e-6 else ''),
+              'cs-as:' + v['cs_as'], 'R:' + rmode, 'R=1' if R == 1 else 'R!=1', 'shift-as:' + shift_as,
+              'plane-base,R!=1' if c == 0 and R != 1 else 'curved-base-or-R=1')
     var_labels(ctx, v, shape)
+    coef_label(ctx, v)
     ctx.nt(True)
-    R = rmax
     _, rbase = make_points(case['seed'], shape, 0.05 * rmax, rmax, False, salt=1)
     _, tbase = make_points(case['seed'], shape, -0.98 * math.pi, 0.98 * math.pi, False, salt=2)   # arctan2 range
     xb, yb = rbase * np.cos(tbase), rbase * np.sin(tbase)
@@ -1207,17 +1532,24 @@ def check_q2d_surface(case, ctx):
         if not ((xb != 0) | (yb != 0)).all():
             v['xkind'] = kind = 'f64'       # aperture smaller than one unit: no integer point but the vertex, where theta is not defined
             xb, yb = rbase * np.cos(tbase), rbase * np.sin(tbase)
+    alias = bool(case.get('alias', False)) and kind != 'int'
+    if alias:
+        xb = xb / math.sqrt(2.0)        # y = x: the points stay inside the sampled aperture
     if kind == 'f32':
         xb, yb = xb.astype(np.float32).astype(float), yb.astype(np.float32).astype(float)
-    if kind != 'f64':
+    if alias:
+        yb = xb
+    if kind != 'f64' or alias:
         rbase, tbase = np.hypot(xb, yb), np.arctan2(yb, xb)
+    ctx.label('x-is-y' if alias else 'x-and-y-separate')
     size = size_of(shape)
     xs = xb[:size].reshape(shape_tuple(shape)).copy()
     ys = yb[:size].reshape(shape_tuple(shape)).copy()
     if isinstance(shape, str):
         xs, ys = float(xs), float(ys)
     x = present(xs, shape, v)
-    y = present(ys, shape, v, layout=v['layout2'])
+    y = x if alias else present(ys, shape, v, layout=v['layout2'])
+    asuf = ':x-is-y' if alias else ''
     modes = q2d_modes(cm0, ams, bms)
 
     def sag(r_, t_):
@@ -1227,7 +1559,9 @@ def check_q2d_surface(case, ctx):
             z = z + q / ctx.call(S.off_axis_conic_sigma, c, k, r_, t_, dx, dy)
         return z
     if v['pre32']:
-        call(ctx, cls + ':float32', S.Q2d_and_der, *cargs, as32(x), as32(y), R, c, k, dx, dy)
+        x32 = as32(x)
+        call(ctx, cls + ':float32', S.Q2d_and_der, *cargs, x32, x32 if alias else as32(y), R, c, k, dx, dy)
+    prefail(ctx, v, S.Q2d_and_der, *cargs, None, None, R, c, k, dx, dy)
     wr = np.imag(sag(rbase + 1j * H, tbase + 0j)) / H
     wt = np.imag(sag(rbase + 0j, tbase + 1j * H)) / H
     # term-wise scale: |conic slope| + sum |c| |d mode| / sigma
@@ -1247,11 +1581,12 @@ def check_q2d_surface(case, ctx):
         ctx.require(isinstance(res, tuple) and len(res) == 3, 'Q2d_and_der:return', 'expected (z, dr, dt)')
         for got, wfull, sc, which in ((res[1], wr, sr, 'radial'), (res[2], wt, st_, 'azimuthal')):
             want = shaped(wfull, shape)
-            bucket = 'Q2d_and_der:%s:%s%s%s%s' % (which, kcls, ':one-family-empty' if cls == 'one-family-empty' else '', isuf, suffix)
+            bucket = 'Q2d_and_der:%s:%s%s%s%s%s' % (which, kcls, ':one-family-empty' if cls == 'one-family-empty' else '', isuf, asuf, suffix)
             U.check_shape(got, np.shape(want), bucket, which)
             U.check_close(got, want, rt, bucket, 'Q2d_and_der(cm0=%s, ams=%s, bms=%s, R=%r, c=%r, k=%r, dx=%r, dy=%r, x: %s %s): %s slope vs complex step' % (
                 cm0, ams, bms, R, c, k, dx, dy, kind, shape_label(shape), which), atol=rt * sc)
-    res = call(ctx, cls, S.Q2d_and_der, *cargs, x, y, R, c, k, dx, dy)
+    sa, sk = skw()
+    res = call(ctx, cls + asuf, S.Q2d_and_der, *cargs, x, y, R, c, k, *sa, **sk)
     verify(res, '')
     other = [[0.5] + [1.0 - cc for cc in cm0], [[0.25, -0.5, 1.0]] + [list(a) for a in ams], [[1.0]] + [list(b) for b in bms]]
     reuse_check(ctx, v, 'Q2d_and_der', res, (x, y, cargs), lambda: ctx.call(S.Q2d_and_der, *other, x, y, R, -0.5 * c, k, dx, dy),
@@ -1269,6 +1604,6 @@ CLAUSES = [
     HypClause('clenshaw_q_der', strat_clenshaw_q, check_clenshaw_q, examples={'quick': 400, 'thorough': 2000}, shards={'quick': 2, 'thorough': 8}),
     HypClause('zprime_qbfs_qcon', strat_zprime, check_zprime, examples={'quick': 500, 'thorough': 2500}, shards={'quick': 1, 'thorough': 4}),
     HypClause('zprime_q2d', strat_q2d, check_q2d, examples={'quick': 300, 'thorough': 1500}, shards={'quick': 2, 'thorough': 8}),
-    HypClause('conic_slopes', strat_conics, check_conics, examples={'quick': 700, 'thorough': 3500}, shards={'quick': 1, 'thorough': 4}),
+    HypClause('conic_slopes', strat_conics, check_conics, examples={'quick': 1200, 'thorough': 5000}, shards={'quick': 2, 'thorough': 6}),
     HypClause('q2d_surface', strat_q2d_surface, check_q2d_surface, examples={'quick': 200, 'thorough': 1000}, shards={'quick': 2, 'thorough': 8}),
 ]
